@@ -20,6 +20,7 @@ RULE = (
     "cells of their source range; other text results: every character's attribute items are a superset of those shared by all "
     "source characters and a subset of their union. Non-trivial: multi-run source with differing formatting."
     ' Strings also carry a history and come in large sizes (up to 25 runs / 90 characters per run); five strings are used both as literal separator and as regular expression within one case (order alternating); ljust/rjust widths occasionally exceed the length by 1024-1500.'
+    ' Delegated methods are also called with the arguments str accepts by keyword (tabsize, sep, maxsplit); ljust/rjust/split with keyword arguments.'
 )
 ASSUMPTIONS = [
     "split() with no separator and split('') are outside the statement (explicit separator or regex)",
